@@ -147,6 +147,28 @@ def run(ctx):
                     loose[par], strict[par] = menu[i], menu[j]
                     check_pair(ctx, fam, loose, strict, par, hist, (name, "constant-prefix", hi, i, j))
                     ctx.count(f"{name}:constant-prefix-pairs")
+    # HDDDM / CDBD: all ordered pairs of the significance menu of each statistic on a few histories (a well-meant "normalisation"
+    # of the parameter in one class only -- a quantile for values below 1, a multiplier above -- is not monotone across the menu)
+    for name in ("HDDDM", "CDBD"):
+        fam = zoo.BY_NAME[name]
+        for hi in range(2 if ctx.quick else 8):
+            for stat, menu in (("stdev", [0.0, 0.05, 0.2, 0.5, 1.0, 2.0, 4.0]), ("tstat", [0.9, 0.5, 0.2, 0.05, 0.01, 0.001, 0.0])):
+                hrng = np.random.default_rng([ctx.seed, 174, core.shash(name), hi])
+                cfg = fam.config(hrng)
+                cfg["statistic"] = stat
+                # borderline history: stationary batches whose level wanders a little, so that the distance to the reference
+                # fluctuates around the adaptive threshold and the first alarm really depends on the multiplier / level
+                d = 1 if name == "CDBD" else int(hrng.integers(1, 3))
+                lvl, hist = np.zeros(d), []
+                for b in range(26):
+                    lvl = lvl + hrng.normal(0, 0.12, d) * (b > 3)
+                    hist.append((hrng.normal(0, 1, (int(hrng.integers(60, 120)), d)) + lvl, int(hrng.integers(1 << 30))))
+                cfg["detect_batch"] = 3 if hi % 2 == 0 else cfg["detect_batch"]
+                for i in range(len(menu)):
+                    for j in range(i + 1, len(menu)):
+                        check_pair(ctx, fam, dict(cfg, significance=menu[i]), dict(cfg, significance=menu[j]), "significance", hist,
+                                   (name, "all-pairs", stat, hi, i, j))
+                        ctx.count(f"{name}:all-pairs")
     names = list(DRIFT_PARAM)
     for name in names:
         fam = zoo.BY_NAME[name]
@@ -161,7 +183,7 @@ def run(ctx):
                 if cfg["statistic"] == "tstat":
                     par, menu = "significance", [0.9, 0.5, 0.2, 0.05, 0.01, 0.001, 0.0]
                 else:
-                    par, menu = "significance", [0.0, 0.5, 1.0, 2.0, 4.0]
+                    par, menu = "significance", [0.0, 0.05, 0.2, 0.5, 1.0, 2.0, 4.0]   # a multiplier of the deviation: values below 1 are multipliers too
             else:
                 par, menu = DRIFT_PARAM[name]
             i = int(crng.integers(0, len(menu) - 1)); j = int(crng.integers(i + 1, len(menu)))
